@@ -63,9 +63,10 @@ func (ssu *realStatefulSetStatusUpdater) UpdateStatefulSetStatus(
 		if updated, err := ssu.setLister.StatefulSets(set.Namespace).Get(set.Name); err == nil {
 			// make a copy so we don't mutate the shared cache
 			set = updated.DeepCopy()
-			// the write may have conflicted because the user has just paused the set: from here on it is left alone
+			// the write may have conflicted because the user has just paused the set: from here on it is left alone,
+			// and the error ends the reconcile (what would follow the status write is a write for the set as well)
 			if helper.GetPausedReconcile(set) {
-				return nil
+				return fmt.Errorf("StatefulSet %s/%s was paused while its status was being written", set.Namespace, set.Name)
 			}
 		} else {
 			utilruntime.HandleError(fmt.Errorf("error getting updated StatefulSet %s/%s from lister: %v", set.Namespace, set.Name, err))
